@@ -339,6 +339,10 @@ namespace bluetoe {
 
         static details::attribute attribute_at( std::size_t index );
 
+        // index of the attribute with the largest handle that is not larger than ending_handle or
+        // invalid_attribute_index if there is no such attribute
+        static std::size_t last_index_by_handle( std::uint16_t ending_handle );
+
         static constexpr std::uint16_t channel_id               = l2cap_channel_ids::att;
         static constexpr std::size_t   minimum_channel_mtu_size = bluetoe::details::default_att_mtu_size;
         static constexpr std::size_t   maximum_channel_mtu_size = bluetoe::details::find_by_meta_type<
@@ -1000,11 +1004,11 @@ namespace bluetoe {
         const std::size_t start_index = handle_mapping::first_index_by_handle( starting_handle );
         const bool only_16_bit_uuids = attribute_at( start_index ).uuid != bits( details::gatt_uuids::internal_128bit_uuid );
 
-        std::size_t ending_index = handle_mapping::first_index_by_handle( ending_handle );
-
         // if the ending handle points not on an existing attribute, the search will end at the next, lower handle
-        if ( ending_index != details::invalid_attribute_index && handle_mapping::handle_by_index( ending_index ) != ending_handle )
-            --ending_index;
+        const std::size_t ending_index = last_index_by_handle( ending_handle );
+
+        if ( ending_index == details::invalid_attribute_index || ending_index < start_index )
+            return error_response( *input, details::att_error_codes::attribute_not_found, starting_handle, output, out_size );
 
         std::uint8_t*        write_ptr = &output[ 0 ];
         std::uint8_t* const  write_end = write_ptr + out_size;
@@ -1271,7 +1275,7 @@ namespace bluetoe {
                 , end_( end )
                 , index_( details::handle_index_mapping< Server >::first_index_by_handle( starting_index ) )
                 , starting_index_( details::handle_index_mapping< Server >::first_index_by_handle( starting_handle ) )
-                , ending_index_( ending_handle )
+                , ending_index_( Server::last_index_by_handle( ending_handle ) )
                 , stoped_( false )
                 , first_( true )
                 , is_128bit_uuid_( true )
@@ -1285,7 +1289,7 @@ namespace bluetoe {
             {
                 if ( !stoped_
                     && ( starting_index_ != details::invalid_attribute_index && starting_index_ <= index_ )
-                    && ( index_ <= ending_index_ || ending_index_ == details::invalid_attribute_index ) )
+                    && ( ending_index_ != details::invalid_attribute_index && index_ <= ending_index_ ) )
                 {
                     if ( first_ )
                     {
@@ -1540,7 +1544,10 @@ namespace bluetoe {
     template < class Iterator, class Filter >
     void server< Options... >::all_attributes( std::uint16_t starting_handle, std::uint16_t ending_handle, Iterator& iter, const Filter& filter )
     {
-        const std::size_t last_index = last_handle_index( ending_handle );
+        const std::size_t last_index = last_index_by_handle( ending_handle );
+
+        if ( last_index == details::invalid_attribute_index )
+            return;
 
         for ( std::size_t index = handle_mapping::first_index_by_handle( starting_handle ); index <= last_index; ++index )
         {
@@ -1557,24 +1564,20 @@ namespace bluetoe {
         {
             services_by_group( std::uint16_t starting_handle, std::uint16_t ending_handle, Iterator& iterator, const Filter& filter, bool& found )
                 : starting_index_( details::handle_index_mapping< Server >::first_index_by_handle( starting_handle ) )
-                , ending_index_( details::handle_index_mapping< Server >::first_index_by_handle( ending_handle ) )
+                // if the ending_handle does not point to a specific handle, the last attribute befor that is ment.
+                , ending_index_( Server::last_index_by_handle( ending_handle ) )
                 , index_( 0 )
                 , iterator_( iterator )
                 , filter_( filter )
                 , found_( found )
             {
-                // if the ending_handle does not point to a specific handle, the last attribute befor that is ment.
-                if ( ending_index_ != details::invalid_attribute_index && details::handle_index_mapping< Server >::handle_by_index( ending_index_ ) != ending_handle )
-                {
-                    --ending_index_;
-                }
             }
 
             template< typename Service >
             void each()
             {
                 if ( ( starting_index_ != details::invalid_attribute_index && starting_index_ <= index_ )
-                    && ( index_ <= ending_index_ || ending_index_ == details::invalid_attribute_index ) )
+                    && ( ending_index_ != details::invalid_attribute_index && index_ <= ending_index_ ) )
                 {
                     const details::attribute& attr = Server::attribute_at( index_ );
 
@@ -1671,6 +1674,23 @@ namespace bluetoe {
         return mapped == details::invalid_attribute_index
             ? number_of_attributes - 1
             : mapped;
+    }
+
+    template < typename ... Options >
+    std::size_t server< Options... >::last_index_by_handle( std::uint16_t ending_handle )
+    {
+        const std::size_t next = handle_mapping::first_index_by_handle( ending_handle );
+
+        // all attributes have smaller handles
+        if ( next == details::invalid_attribute_index )
+            return number_of_attributes - 1;
+
+        if ( handle_mapping::handle_by_index( next ) == ending_handle )
+            return next;
+
+        return next == 0
+            ? details::invalid_attribute_index
+            : next - 1;
     }
 
     template < typename ... Options >
